@@ -157,7 +157,8 @@ func C06(tier Tier) int {
 			seen[g] = true
 			// locked gas: none, little, more than the function's own price, more than the whole
 			// charge, more than the gas provided, huge
-			for _, locked := range []uint64{0, 7, own + 1, total + 1, g + 1, 1 << 62} {
+			// ... and so large that price + locked gas wraps around 2^64
+			for _, locked := range []uint64{0, 7, own + 1, total + 1, g + 1, 1 << 62, ^uint64(0), ^uint64(0) - own + 1, ^uint64(0) - total + 1} {
 				w, a := withGas(c, g, locked)
 				_, ls := env.Step(w, a)
 				l := ls[0]
@@ -194,7 +195,7 @@ func C06(tier Tier) int {
 	})
 	req := []string{"gas:SaveKeyValue:below-total:error", "gas:ESDTTransfer:ge-total:ok:fwd1", "gas:ESDTNFTTransfer:below-total:error", "gas:MultiESDTNFTTransfer:ge-total:ok:fwd1", "gas:SetUserName:ge-total:ok:fwd1"}
 	code := FinishEnumWithSelf(P, tier, "exploration", start,
-		fmt.Sprintf("for each of the %d successful transition classes (23 functions, both sides, refunds, no-op shapes such as SaveKeyValue with unchanged values) x %d schedules (distinct primes; all 2^32-1; all 1) the charge for that input is measured with ample gas, then GasProvided is swept over {0,1,own-1,own,own+1,total-1,total,total+1,2*total,2^32,2^63,2^64-2,2^64-1} x GasLocked {0, 7, own+1, charge+1, GasProvided+1, 2^62}; destination-side classes get the gas through the delivered message. A class is distinct by (function, below/at-or-above the charge, outcome, number of forwarding transfers)", len(cat), len(schedules)),
+		fmt.Sprintf("for each of the %d successful transition classes (23 functions, both sides, refunds, no-op shapes such as SaveKeyValue with unchanged values) x %d schedules (distinct primes; all 2^32-1; all 1) the charge for that input is measured with ample gas, then GasProvided is swept over {0,1,own-1,own,own+1,total-1,total,total+1,2*total,2^32,2^63,2^64-2,2^64-1} x GasLocked {0, 7, own+1, charge+1, GasProvided+1, 2^62, 2^64-1, 2^64-own, 2^64-charge}; destination-side classes get the gas through the delivered message. A class is distinct by (function, below/at-or-above the charge, outcome, number of forwarding transfers)", len(cat), len(schedules)),
 		[]string{"sums are formed in 128-bit arithmetic so that a wrapped value cannot hide", "the 'fails or consumes all' clause is asserted where the sender account is local (gas is paid only there)"},
 		true, map[string]interface{}{"classes": len(cat), "schedules": len(schedules)}, req, selfCheck, ws...)
 	return code
